@@ -67,7 +67,8 @@ func init() {
 		t.Fields = append(t.Fields, &SField{Name: "extra", Args: 1, Ret: "String", File: "b", Resolver: true})
 		o.Ops = []string{"edit", "add-field Query.version@a", "add-field Todo.extra@b"}
 	}
-	// parameters named after schema arguments; the change only ADDS fields; then two plain regenerations
+	// parameters named after schema arguments; the change only ADDS fields; a plain regeneration; then (not add-only) a
+	// resolver with a shadowing parameter is renamed, another removed, a third moves to the other file
 	reg("shadow-params-add-only", 3, func(w *W, r *rng.R, k int, o *Obs) error {
 		switch k {
 		case 0:
@@ -76,13 +77,20 @@ func init() {
 		case 1:
 			addFields(w.Sch, o)
 			return w.userEdit(r, EditOpts{NoRandom: true, BodyFor: shadowParamBodies})
-		default:
+		case 2:
 			o.Ops = []string{"repeat"}
+		default:
+			o.Ops = []string{"rename-field Query.schedule->timetable", "remove-field Todo.due", "move-field Todo.owner a->b"}
+			o.AddOnly = false
+			w.Sch.typ("Query").Fields[0].Name = "timetable"
+			t := w.Sch.typ("Todo")
+			t.Fields = append([]*SField{t.Fields[0]}, t.Fields[2:]...)
+			t.Fields[1].File = "b"
 		}
 		return nil
 	})
 	// locals / named results on the plain schema
-	reg("shadow-locals-add-only", 3, func(w *W, r *rng.R, k int, o *Obs) error {
+	reg("shadow-locals-add-only", 2, func(w *W, r *rng.R, k int, o *Obs) error {
 		switch k {
 		case 0:
 			w.Sch = fixedSchema()
@@ -124,25 +132,17 @@ func init() {
 		}
 		return nil
 	})
-	// not add-only: a resolver with a shadowing parameter is renamed, another removed (bodies go to the WARNING block)
-	reg("shadow-evolve", 3, func(w *W, r *rng.R, k int, o *Obs) error {
+	// F19g: the one reserved name the STUB itself needs. A field with an argument called `fmt` is added (add-only); the
+	// stub gqlgen writes for it, `panic(fmt.Errorf("not implemented: …"))`, has `fmt` bound to the parameter.
+	reg("shadow-arg-fmt-add-only", 1, func(w *W, r *rng.R, k int, o *Obs) error {
 		switch k {
 		case 0:
-			w.Sch = shadowSchema()
+			w.Sch = fixedSchema()
 			o.Ops = []string{"initial"}
-		case 1:
-			o.Ops = []string{"edit", "repeat"}
-			return w.userEdit(r, EditOpts{NoRandom: true, BodyFor: shadowParamBodies})
-		case 2:
-			o.Ops = []string{"rename-field Query.schedule->timetable", "remove-field Todo.due", "move-field Todo.owner a->b"}
-			o.AddOnly = false
-			w.Sch.typ("Query").Fields[0].Name = "timetable"
-			t := w.Sch.typ("Todo")
-			t.Fields = []*SField{t.Fields[0], t.Fields[2]}
-			t.Fields[1].File = "b"
 		default:
-			o.Ops = []string{"repeat"}
-			o.AddOnly = false
+			q := w.Sch.typ("Query")
+			q.Fields = append(q.Fields, &SField{Name: "render", Shadow: []string{"fmt!"}, Ret: "String!", File: "a", Resolver: true})
+			o.Ops = []string{"add-field Query.render(fmt: ShadowIn!)@a"}
 		}
 		return nil
 	})
